@@ -17,7 +17,7 @@ pub const SPEC: PropSpec = PropSpec {
     required: &["roundtrips", "borrowed_results", "refs.valid_ok", "refs.surrogate_rejected", "refs.zero_rejected", "refs.out_of_range_rejected", "refs.malformed_rejected", "planes_seen_all17", "refun.ok", "refun.err", "custom_resolver_runs"],
     run,
     replay,
-    thorough_layers: &[("miri", 1)],
+    thorough_layers: &[("miri", 1), ("fuzz", 30)],
     quick_layers: &[],
     post: Some(post),
 };
@@ -392,6 +392,9 @@ fn flush(ctx: &mut Ctx, loc: &Local) {
 }
 
 fn replay(case: &Value, _ctx: &mut Ctx) -> Option<String> {
+    if let Some(h) = case.get("fuzz").and_then(|v| v.as_str()) {
+        return fuzz_entry(&crate::ctx::unhex(h)).err();
+    }
     let mut loc = Local::default();
     if let Some(s) = case["string"].as_str() {
         return check_string(s, &mut loc).err();
@@ -400,4 +403,11 @@ fn replay(case: &Value, _ctx: &mut Ctx) -> Option<String> {
         return check_codepoint(cp as u32, &mut loc).err();
     }
     Some("unreadable replay case".into())
+}
+
+/// libFuzzer entry: the input as a (lossy) string
+pub fn fuzz_entry(data: &[u8]) -> Result<(), String> {
+    let s = String::from_utf8_lossy(data);
+    let mut loc = Local::default();
+    check_string(&s, &mut loc)
 }
